@@ -830,8 +830,14 @@ func (t *tScreen) drawCell(x, y int) int {
 			t.TPuts(ti.InsertChar)
 			t.cy = y
 			t.cx = x - 1
-			t.cells.SetDirty(x-1, y, true)
-			_ = t.drawCell(x-1, y)
+			// repaint what we scribbled over: the cell at x-1, or the
+			// wide character starting at x-2 whose second half it is
+			rx := x - 1
+			if _, _, _, w := t.cells.GetContent(x-2, y); w > 1 {
+				rx = x - 2
+			}
+			t.cells.SetDirty(rx, y, true)
+			_ = t.drawCell(rx, y)
 			t.TPuts(t.ti.TGoto(0, 0))
 			t.cy = 0
 			t.cx = 0
